@@ -5,6 +5,8 @@ LEVELS = {
     "C06": "proof",
     "C01": "proof",
     "C05": "proof",
+    "C10": "proof",
+    "C14": "other",
 }
 EXPLAIN = {}
 TRUSTED = [
